@@ -112,6 +112,30 @@ CHECKS = {
         "DESIGN.md §4 C07",
         "A",
     ),
+    "C12": (
+        "exploration",
+        "exhaustive sweep over ABI type trees x length-candidate configurations; halmos's calldata is flattened to per-byte atoms and decoded by an independent ABI decoder for every choice of candidate lengths; a reader program on the real SEVM must explore exactly the product of the candidate lists",
+        "Every signature with 1-3 parameters over ABI type trees (base types uint256, uint8, int128, address, bool, bytes4, bytes32, bytes, string; T[], T[1], T[2], tuples; nesting <= 3) x 6 length configurations "
+        "(--default-array-lengths / --default-bytes-lengths / --array-lengths incl. unordered lists and per-name overrides) is built by halmos.calldata.mk_calldata. The result is flattened to (constant byte | byte k of symbol s) atoms "
+        "and, for every combination of candidate lengths, decoded by an ABI decoder written from the specification: offsets concrete and in range, every leaf a whole, distinct, otherwise unused symbol, leaf regions disjoint, every size "
+        "symbol heading exactly one length word. A generated reader program (CALLDATALOAD of every length word) is run on the real SEVM, also with a second symbolic calldata registered on the same path: the returned length tuples must be "
+        "exactly the product of the candidate lists. Unsupported types (fixedMxN, ufixed, function) must raise.",
+        "Trusted: the atom flattener and ABI decoder in props/c12_calldata.py. Narrow types are full-word symbols by design (documented over-approximation). Products above 512 combinations are restricted to all-min, all-max and single deviations (counted as capped).",
+        "DESIGN.md §4 C12",
+        "A",
+    ),
+    "C18": (
+        "exploration",
+        "exhaustive enumeration of configuration layer stacks, solver source pairs, structured option values and annotation placements, each resolved by the real halmos config code / _main and compared with a reference precedence fold",
+        "For each option (quick: 12 representative incl. bool, countable, int, choice and every structured type; thorough: all 56 fields) every stack of <= 4 (thorough 5) layers over {config file, contract annotation, function annotation, "
+        "command line}, each built by the real argparse/TOML parsers and setting the option or not with values that include the falsy ones (0, empty string, '*', false), is resolved and compared with the reference fold (source rank, then recency). "
+        "--solver-command vs --solver over all source pairs and both application orders. Every value of the structured grammars (timeouts with units and fractions, error-code sets, array-length maps, CSV lists, trace events) round-trips through "
+        "unparse/parse and through the `python -m halmos.config` TOML emission + TomlParser; 58 malformed strings must be rejected by the parser, the command line and the config file. Annotation scoping: generated projects with every subset of "
+        "five annotation placements over two contracts that share function signatures x toml x command line are run through halmos.__main__._main (stub forge) and the configuration every setUp()/test actually receives is compared with the fold.",
+        "Trusted: the reference fold (Appendix B.4) and the option value tables in props/c18_config.py. The scoping observation rebinds halmos.__main__.run_test/setup in the harness process (no source hook).",
+        "DESIGN.md §4 C18",
+        "A",
+    ),
     "C19": (
         "exploration",
         "exhaustive enumeration of all byte strings up to a length bound x symbolic-region placements, each compared with a reference decoder; exhaustive jump programs through SEVM.run",
